@@ -37,6 +37,8 @@ func init() {
 				Rule: "every rejection before admission returns a 4xx status, except the two internal failures (body read, TBS construction) which return 500", Run: c09g},
 			{ID: "C09.i", Title: "REJECT-INVENTORY", Template: "T2+T4", MinInst: 1,
 				Rule: "every return of the submission handler that precedes admission lies behind a refusing outcome of a recognised validator (body read/parse, empty or short chain, ValidateChain, IsPrecertificate, BuildPrecertTBS, the endpoint's type check): no other condition refuses a chain", Run: c09i},
+			{ID: "C09.j", Title: "TYPE-BRANCHES", Template: "T1", MinInst: 3,
+				Rule: "from the IsPrecertificate == true edge the pool is reached only through e.IsPrecert = true; from the IsPreIssuer(chain[1]) == true edge BuildPrecertTBS is reached only through preIssuer = chain[1]; both edges are live; in SetRootsFromPEM the upload and the pool swap are unreachable unless the new roots parsed", Run: c09j},
 		},
 	})
 }
@@ -868,5 +870,132 @@ func c09i(c *Ctx) {
 	if !bad {
 		c.add(Result{Instance: f.Name + " refusals", Verdict: Discharged, Evals: len(all), Sites: []string{f.Pos(f.Decl)},
 			Detail: fmt.Sprintf("all %d pre-admission returns lie behind a refusing outcome of one of %d recognised validators or a chain-length test", len(all), found)})
+	}
+}
+
+// ---------------------------------------------------------------------------
+// C09.j TYPE-BRANCHES: what a recognised shape obliges the handler to do.
+
+// callTrueEdges: the edges on which the call at s, used directly as (part of)
+// a branch condition, is known to have returned true.
+func callTrueEdges(g *Graph, call *ast.CallExpr) map[Edge]bool {
+	return g.EdgesImplying(func(a Atom) bool { return ast.Unparen(a.E) == ast.Expr(call) && a.Val })
+}
+
+func liveEdges(g *Graph, es map[Edge]bool) []Edge {
+	var out []Edge
+	for e := range es {
+		if !g.dead[e] {
+			out = append(out, e)
+		}
+	}
+	return out
+}
+
+func c09j(c *Ctx) {
+	if f := c.Fn("ctlog.(*Log).addChainOrPreChain"); f != nil {
+		c.touch(f)
+		info := f.Info()
+		g := f.Graph()
+		add := f.Calls(Callee{pkgCtlog, "Log", "addLeafToPool"})
+		// (1) a precertificate is always logged as one
+		inst := f.Name + " a precertificate is logged as a precertificate entry"
+		ip := f.Calls(Callee{pkgCtfe, "", "IsPrecertificate"})
+		fv := c.P.fieldVar(pkgCtlog, "PendingLogEntry", "IsPrecert")
+		var marks []Site
+		for _, st := range f.StoresTo(fv) {
+			if v, ok := constBool(info, st.Rhs); ok && v {
+				marks = append(marks, st.Site)
+			}
+		}
+		if len(ip) != 1 || len(add) != 1 || len(marks) == 0 {
+			c.Unk(inst, fmt.Sprintf("anchors: IsPrecertificate=%d addLeafToPool=%d IsPrecert stores=%d", len(ip), len(add), len(marks)))
+		} else {
+			trueE, _, _, ok := BoolEdges(ip[0])
+			lv := liveEdges(g, trueE)
+			bad := !ok || len(lv) == 0
+			stop := func(p Point, _ ast.Node) bool {
+				for _, m := range marks {
+					if m.P == p {
+						return true
+					}
+				}
+				return false
+			}
+			for _, e := range lv {
+				if pt, _ := g.Reach(EdgeStart(e), Cut{Stop: stop}, atSite(add[0])); pt != nil {
+					bad = true
+				}
+			}
+			if bad {
+				c.Bad(inst, ip[0].Pos(), "a chain whose leaf is a precertificate can reach the pool without the entry being marked IsPrecert (it would be logged as an X.509 entry, poison extension included)")
+			} else {
+				c.add(Result{Instance: inst, Verdict: Discharged, Evals: len(lv), Sites: sitePositions(marks), Detail: "from the IsPrecertificate == true edge the pool is reached only through e.IsPrecert = true", Witnesses: f.WitEdges(trueE)})
+			}
+		}
+		// (2) a precertificate signing certificate is always taken into account
+		inst = f.Name + " a precertificate signing certificate is used when present"
+		pi := f.Calls(Callee{"github.com/google/certificate-transparency-go", "", "IsPreIssuer"})
+		tbs := f.Calls(Callee{pkgCTx509, "", "BuildPrecertTBS"})
+		if len(pi) != 1 || len(tbs) != 1 {
+			c.Unk(inst, fmt.Sprintf("anchors: IsPreIssuer=%d BuildPrecertTBS=%d", len(pi), len(tbs)))
+		} else {
+			pre := objOf(info, argByName(info, tbs[0].Call, "preIssuer"))
+			var sets []Site
+			if pre != nil {
+				for _, d := range f.Defs(pre) {
+					if d.Kind == DefAssign && d.Rhs != nil && !isNilIdent(info, d.Rhs) {
+						sets = append(sets, f.Find(func(n ast.Node) bool { return n == d.Node })...)
+					}
+				}
+			}
+			trueE := callTrueEdges(g, pi[0].Call)
+			lv := liveEdges(g, trueE)
+			bad := pre == nil || len(sets) == 0 || len(lv) == 0
+			stop := func(p Point, _ ast.Node) bool {
+				for _, m := range sets {
+					if m.P == p {
+						return true
+					}
+				}
+				return false
+			}
+			for _, e := range lv {
+				if pt, _ := g.Reach(EdgeStart(e), Cut{Stop: stop}, atSite(tbs[0])); pt != nil {
+					bad = true
+				}
+			}
+			if bad {
+				c.Bad(inst, pi[0].Pos(), "when chain[1] is a precertificate signing certificate the TBS can be rebuilt (and the issuer key hash chosen) without it: the logged entry would name the wrong issuer")
+			} else {
+				c.add(Result{Instance: inst, Verdict: Discharged, Evals: len(lv), Sites: sitePositions(sets), Detail: "from the IsPreIssuer(chain[1]) == true edge BuildPrecertTBS is reached only through preIssuer = chain[1]", Witnesses: f.WitEdges(trueE)})
+			}
+		}
+	}
+	// (3) a root file that does not parse is never stored or adopted
+	if f := c.Fn("ctlog.(*Log).SetRootsFromPEM"); f != nil {
+		c.touch(f)
+		g := f.Graph()
+		inst := f.Name + " unparseable roots are refused"
+		ap := f.Calls(Callee{"github.com/google/certificate-transparency-go/x509util", "PEMCertPool", "AppendCertsFromPEM"})
+		var targets []Site
+		targets = append(targets, f.CallsW(specUpload)...)
+		for _, fld := range []string{"roots", "rootsPEM"} {
+			for _, st := range f.StoresTo(c.P.fieldVar(pkgCtlog, "Log", fld)) {
+				targets = append(targets, st.Site)
+			}
+		}
+		if len(ap) != 1 || len(targets) < 3 {
+			c.Unk(inst, fmt.Sprintf("anchors: AppendCertsFromPEM=%d upload+stores=%d", len(ap), len(targets)))
+		} else {
+			okE := callTrueEdges(g, ap[0].Call)
+			if len(okE) == 0 {
+				c.Bad(inst, ap[0].Pos(), "the result of parsing the new roots is not tested")
+			} else if pt, _ := g.ReachableFromEntry(Cut{Edges: okE}, atAnySite(targets)); pt != nil {
+				c.Bad(inst, ap[0].Pos(), "roots that failed to parse can be uploaded as _roots.pem or adopted as the accepted root pool")
+			} else {
+				c.add(Result{Instance: inst, Verdict: Discharged, Evals: len(targets), Sites: sitePositions(targets), Detail: "upload and pool swap are unreachable unless AppendCertsFromPEM returned true", Witnesses: f.WitEdges(okE)})
+			}
+		}
 	}
 }
